@@ -59,9 +59,28 @@ let record (s : BinNums.coq_Z list) =
       (hex (std_stem s)) (hex (std_extension s)) (bits (std_queries s)) in
   (m_obs, m_st, s_obs)
 
+(* W <hex>: the Windows configuration (path.c built with -D_WIN32).  No model of those branches exists: the M line
+   is "=" (spec only).  Paths are printed with every separator as '/', runs collapsed (as the driver prints them). *)
+let win_record (s : BinNums.coq_Z list) =
+  let open PathWinSpec in
+  let is_sep c = let c = int_of_z c in c = 47 || c = 92 in
+  let sl = z_of_int 47 in
+  let rec collapse prev = function
+    | [] -> []
+    | c :: t -> if is_sep c then (if prev then collapse true t else sl :: collapse true t) else c :: collapse false t in
+  let rec join = function [] -> [] | [e] -> e | e :: r -> e @ (sl :: join r) in
+  let pth ((rn, rd), elems) = hex (collapse false (rn @ (if rd then [sl] else []) @ join elems)) in
+  let rn = win_root_name s and rd = win_has_root_directory s in
+  Printf.sprintf "rn=%s rd=%s rp=%s rel=%s par=%s fn=%s st=%s ex=%s q=%s in=11111111"
+    (hex rn) (if rd then "2f" else "-") (pth ((rn, rd), [])) (hex (win_relative_path s))
+    (pth (win_parent_path s)) (hex (win_filename s)) (hex (win_stem s)) (hex (win_extension s))
+    (bits (win_queries s))
+
 let () =
   iter_lines (fun line ->
     match split_ws line with
+    | ["W"; h] ->
+      Printf.printf "M =\nS %s\n" (win_record (List.map z_of_int (bytes_of_hex h)))
     | ["P"; h] ->
       let (mo, ms, so) = record (List.map z_of_int (bytes_of_hex h)) in
       Printf.printf "M %s || %s\nS %s\n" mo ms so
